@@ -17,11 +17,12 @@ def judge_history(history, refs):
         raise core.HarnessError("replaying the history [%s] twice gives different observations" % describe(history))
     msgs = []
     for k, ((kind, name), ob) in enumerate(zip(history, obs1)):
-        if kind != "call":
+        if ob is None:
             continue
-        if ob["result"] != refs[name]:
-            msgs.append(("after [%s] the call %s returns %s; a fresh interpreter returns %s" % (
-                describe(history[:k]), name, ob["result"][:160], refs[name][:160]), k))
+        ref = get_ref(refs, ob["ref"])
+        if ob["result"] != ref:
+            msgs.append(("after [%s] the call %s returns %s; a fresh interpreter returns %s for the same argument values" % (
+                describe(history[:k]), name, ob["result"][:160], ref[:160]), k))
         if ob["args_before"] != ob["args_after"]:
             msgs.append(("the call %s modified its arguments: %s -> %s" % (name, ob["args_before"][:120], ob["args_after"][:120]), k))
     return msgs, st1
@@ -29,6 +30,20 @@ def judge_history(history, refs):
 
 def _work(history):
     return histmc.execute(history)
+
+
+def get_ref(refs, key):
+    if key not in refs:
+        refs[key] = histmc.reference_answer_held(key) if "|" in key else histmc.reference_answer(key, 0)
+    return refs[key]
+
+
+def fill_refs(refs, results):
+    """Compute, in parallel, the reference answers for held-object calls seen in this batch."""
+    need = sorted({ob["ref"] for obs, _ in results for ob in obs if ob is not None and ob["ref"] not in refs})
+    if need:
+        for key, ans in core.pmap(histmc._refheld_work, need):
+            refs[key] = ans
 
 
 def check(ctx):
@@ -43,6 +58,7 @@ def check(ctx):
             ctx.violation({"kind": "seed", "call": name}, "seed: %s returns different results in fresh interpreters with different hash seeds" % name)
         refs.setdefault(name, ans)
     ctx.count("reference_processes", len(res))
+    ctx.notes["held_object"] = "a caller-held 4-qubit Stabilizer reused across the h_* calls and mutated in place by the mut_held events; reference = fresh interpreter given a fresh object with the same current values"
     # ---- breadth-first search over histories, deduplicated on the canonical state
     seen = {}
     init_obs, init_state = histmc.execute([])
@@ -53,6 +69,7 @@ def check(ctx):
         ctx.phase("depth %d: expanding %d states" % (d, len(frontier)))
         cand = [h + [ev] for h in frontier for ev in histmc.enabled(h)]
         results = core.pmap(_work, cand)
+        fill_refs(refs, results)
         nxt = []
         for h, (obs, st) in zip(cand, results):
             ctx.count("transitions")
@@ -62,9 +79,8 @@ def check(ctx):
             if ob is not None:
                 name = h[-1][1]
                 ctx.count("traces_validated_against_impl")
-                if ob["result"] != refs[name]:
+                if ob["result"] != refs[ob["ref"]]:
                     bad = True
-                    sig = ("result", name, tuple(e for e in h[:-1] if e[0] != "call" or True))
                     violating.setdefault(("result", name, _shape(h)), h)
                 if ob["args_before"] != ob["args_after"]:
                     bad = True
@@ -102,15 +118,12 @@ def check(ctx):
 
 
 def _shape(h):
-    return tuple((k, n) for k, n in h if k != "call")[-2:]
+    return tuple((k, n) for k, n in h if k not in ("call", "hcall"))[-2:]
 
 
 def replay(body):
     h = [tuple(e) for e in body["history"]]
     refs = {}
-    for kind, name in h:
-        if kind == "call" and name not in refs:
-            refs[name] = histmc.reference_answer(name, 0)
     msgs, _ = judge_history(h, refs)
     return "; ".join(m for m, _ in msgs[:2]) if msgs else None
 
